@@ -499,6 +499,64 @@ pub fn check_point(p: &Point) -> Result<&'static str, Viol> {
                     ));
                 }
             }
+            // store_proved_transaction on every row in turn (whatever its state: the method and
+            // ProvedTransaction::apply do not restrict it). Documented effect: the proven bytes
+            // replace the stored ones, the lock owner carried by the proof is recorded, the row
+            // becomes Proved — and nothing else changes (mark, failure report, schedule ...). The
+            // expectation is rebuilt from the parts, not by calling the code under test.
+            for i in 0..s.transactions().len() {
+                let mut st = store(conn, account, net)?;
+                st.replace_migration(&s).map_err(|e| viol("persist:lattice:replace-refused", format!("re-persisting failed: {e}")))?;
+                let bytes = vec![0x70, i as u8, 0x00, 0xEE];
+                let expected = {
+                    let txs = s
+                        .transactions()
+                        .iter()
+                        .enumerate()
+                        .map(|(n, t)| {
+                            if n != i {
+                                return t.clone();
+                            }
+                            MigrationTransaction::from_parts(
+                                t.id(),
+                                t.kind(),
+                                bytes.clone(),
+                                t.depends_on().clone(),
+                                t.scheduled_height(),
+                                t.expiry_height(),
+                                t.anchor_boundary(),
+                                t.txid(),
+                                MigrationTxState::Proved,
+                                None,
+                                t.unsatisfiable(),
+                                t.spend_nullifiers().clone(),
+                                t.broadcast_failure_at(),
+                            )
+                        })
+                        .collect();
+                    MigrationState::from_parts(s.status(), s.denominations().clone(), s.preparation().clone(), txs, s.anchor_bucket_interval(), s.replan_threshold())
+                };
+                let mut mem = s.clone();
+                let proven = ProvedTransaction::from_parts(s.transactions()[i].id(), bytes.clone());
+                catch(|| st.store_proved_transaction(&mut mem, proven))
+                    .map_err(|p| viol("persist:lattice:store-proved-panic", format!("store_proved_transaction panicked: {p}")))?
+                    .map_err(|e| viol("persist:lattice:store-proved-refused", format!("store_proved_transaction failed: {e}")))?;
+                if mem != expected {
+                    let (f, m) = diff2(&Some(mem), &expected);
+                    return Err(viol(
+                        format!("persist:store-proved:state-touched-beyond-proof:{f}"),
+                        format!("store_proved_transaction on row {i} must only install the proven bytes, the Proved state and the lock owner; the in-memory state (vs expected): {m}"),
+                    ));
+                }
+                let got = st.get_migration().map_err(|e| viol("persist:lattice:get-error", format!("get_migration after store_proved_transaction: {e}")))?;
+                if got.as_ref() != Some(&expected) {
+                    let (f, m) = diff2(&got, &expected);
+                    return Err(viol(
+                        format!("persist:store-proved:stored-touched-beyond-proof:{f}"),
+                        format!("after store_proved_transaction on row {i} the stored migration (vs expected): {m}"),
+                    ));
+                }
+            }
             // Restore the original for the second-migration part.
             let mut st = store(conn, account, net)?;
             st.replace_migration(&s).map_err(|e| viol("persist:lattice:replace-refused", format!("re-persisting failed: {e}")))?;
